@@ -281,8 +281,9 @@ def degen_case(draw, tier="quick"):
     coef = [[draw(st.integers(-3, 3)) for _ in range(4)] for _ in range(n)]
     degen = [draw(st.booleans()) for _ in range(n)] if npos else [True]
     scales = [draw(C.scale()) for _ in range(3)]
+    mags = [draw(st.sampled_from([0, 0, 8, 15])) for _ in range(n)] if npos > 1 and draw(st.booleans()) else None
     return {"cfg": cfg, "dim": dim, "npos": npos, "base": base, "coef": coef, "degen": degen, "scales": scales,
-            "zero_at": draw(st.integers(0, 2)), "twoaxes": shape2 and npos in (2,)}
+            "zero_at": draw(st.integers(0, 2)), "twoaxes": shape2 and npos in (2,), "mags": mags}
 
 
 def config_args(cfg, dim, base, coef, degen, zero_at):
@@ -412,7 +413,12 @@ def run_degen(case):
         if npos == 0:
             objs.append(build_arg(kind, arg_array(per[0][k]) * sc[k], n))
         else:
-            arrs = [arg_array(per[i][k]) * sc[k] for i in range(N)]
+            # elements of very different magnitude inside one collection: positions in general position may carry a
+            # representative multiplied by 2**e (degenerate positions stay small so that they are exactly degenerate)
+            mags = case.get("mags") or [0] * N
+            if len(mags) != N or not all(isinstance(e, int) and 0 <= e <= 15 for e in mags):
+                raise Skip("malformed magnitudes")
+            arrs = [arg_array(per[i][k]) * sc[k] * (2.0 ** mags[i] if exps[i] == "ok" else 1.0) for i in range(N)]
             o = build_arg(kind, arrs, n)
             if case["twoaxes"]:
                 o = type(o)(o.array.reshape((2, 1) + o.array.shape[1:]))
@@ -476,6 +482,8 @@ def degen_labels(c):
     out = [c["cfg"], "single" if c["npos"] == 0 else "collection"]
     if c["npos"] and not any(c["degen"]):
         out.append("collection-without-degenerate-position")
+    if c.get("mags") and len(set(c["mags"])) > 1:
+        out.append("mixed-magnitude-collection")
     return out
 
 
@@ -489,5 +497,5 @@ LAWS = [
         rule="two 3D lines: equal -> LinearDependenceError, skew -> NotCoplanar (join and meet), meeting -> exact plane / point; is_coplanar exact"),
     Law("constructed", lambda tier: degen_case(tier), run_degen, degen_nontrivial, degen_labels, {"quick": 2500, "thorough": 40000},
         "constructed degeneracies with scrambled representatives, single and inside collections", shard=300,
-        mandatory=("collection", "single", "collection-without-degenerate-position")),
+        mandatory=("collection", "single", "collection-without-degenerate-position", "mixed-magnitude-collection")),
 ]
